@@ -406,7 +406,15 @@ static cocls::async<void> actor(Env &e, int id) {
             case QPUSHD: e.q.push(1); break;
             case QPUSHA: co_await e.q.push(1); break;
             case QPOP: co_await e.q.pop(); break;
-            case DETD: actor(e, st.arg).detach(); break;
+            case DETD:
+                // two ways to start a child and discard the suspend point: detach(), and start(promise) - the rarely used overload
+                // that returns suspend_point<bool>. Either way the child is only readied: it runs after the starter gives way.
+                if ((id + st.arg) & 1) {
+                    cocls::promise<void> p = e.cf[st.arg].get_promise();
+                    actor(e, st.arg).start(p);
+                } else
+                    actor(e, st.arg).detach();
+                break;
             case DETA: co_await actor(e, st.arg).detach(); break;
             case STARTF: e.cf[st.arg] << [&] { return actor(e, st.arg).start(); }; break;
             case COAWAIT: co_await actor(e, st.arg); break;
@@ -418,7 +426,10 @@ static cocls::async<void> actor(Env &e, int id) {
             case NEST: cocls::coro_queue::install_queue_and_call([&] { e.prom[st.arg](7); }); break;
             case RES2D: {
                 cocls::suspend_point<void> sp = e.prom[0](7);
-                sp << e.prom[1](7);
+                if (id & 1)
+                    sp = e.prom[1](7);  // move-assignment merges, like <<
+                else
+                    sp << e.prom[1](7);
                 break;  // discarded
             }
         }
